@@ -506,7 +506,7 @@ where
 
         // calculate the svd
         let svd_epsilon = self.svd_epsilon;
-        let current_svd = Phi_w.as_ref().map(|Phi_w| Phi_w.clone().svd(true, true));
+        let current_svd = Phi_w.as_ref().and_then(calculate_svd);
         let linear_coefficients = current_svd
             .as_ref()
             .and_then(|svd| svd.solve(&self.Y_w, svd_epsilon).ok());
@@ -644,7 +644,7 @@ where
 
         // calculate the svd
         let svd_epsilon = self.svd_epsilon;
-        let current_svd = Phi_w.as_ref().map(|Phi_w| Phi_w.clone().svd(true, true));
+        let current_svd = Phi_w.as_ref().and_then(calculate_svd);
         let linear_coefficients = current_svd
             .as_ref()
             .and_then(|svd| svd.solve(&self.Y_w, svd_epsilon).ok());
@@ -752,6 +752,33 @@ where
             None
         }
     }
+}
+
+/// Calculate the singular value decomposition of the (weighted) matrix of
+/// model function values. Returns None if the matrix is unusable, i.e. if it
+/// contains non-finite values or if the decomposition does not converge to
+/// finite singular values. For usable matrices the result is the same as
+/// calling `svd(true,true)` on the matrix.
+fn calculate_svd<ScalarType>(matrix: &DMatrix<ScalarType>) -> Option<SVD<ScalarType, Dyn, Dyn>>
+where
+    ScalarType: Scalar + ComplexField + Copy,
+    ScalarType::RealField: Float,
+{
+    if matrix.is_empty() || matrix.iter().any(|val| !val.is_finite()) {
+        return None;
+    }
+    // the same convergence criterion that the `svd` method uses internally,
+    // but with a bounded number of iterations and without sorting the singular
+    // values, because both the unbounded iteration and the sorting
+    // cannot deal with NaN values that arise during the decomposition.
+    let eps = <ScalarType::RealField as Float>::epsilon() * nalgebra::convert(5.0);
+    let max_niter = 1000 * matrix.nrows().min(matrix.ncols());
+    let mut svd = SVD::try_new_unordered(matrix.clone(), true, true, eps, max_niter)?;
+    if svd.singular_values.iter().any(|val| !val.is_finite()) {
+        return None;
+    }
+    svd.sort_by_singular_values();
+    Some(svd)
 }
 
 /// copy the
